@@ -253,10 +253,78 @@ fn check_tree(r: &Report, items: &[&Item], ops: &[FilterOp], regexes: &[Option<R
     }
 }
 
+/// C12, order independence: the tree built from every permutation of the bench
+/// list and of the group list (constructor / link order) sorts to the same tree.
+fn permutations<T: Clone>(v: &[T]) -> Vec<Vec<T>> {
+    if v.len() <= 1 {
+        return vec![v.to_vec()];
+    }
+    let mut out = Vec::new();
+    for i in 0..v.len() {
+        let mut rest = v.to_vec();
+        let x = rest.remove(i);
+        for mut p in permutations(&rest) {
+            p.insert(0, x.clone());
+            out.push(p);
+        }
+    }
+    out
+}
+
+fn strip_addrs(nodes: &mut Vec<NodeMirror>) {
+    for n in nodes {
+        n.entry_addr = None;
+        strip_addrs(&mut n.children);
+    }
+}
+
+fn check_permutations(cli: &Cli, r: &Report) {
+    let max_items = if cli.thorough { 6 } else { 5 };
+    let mut index = 0u64;
+    for mask in 1u32..(1 << ITEMS.len()) {
+        if mask.count_ones() as usize > max_items || mask.count_ones() < 2 {
+            continue;
+        }
+        index += 1;
+        if !cli.mine(index) {
+            continue;
+        }
+        let items: Vec<&Item> = (0..ITEMS.len()).filter(|i| mask & (1 << i) != 0).map(|i| &ITEMS[i]).collect();
+        let (benches, mut groups, _) = build_tree(&items);
+        // a second group so that the group list has an order too
+        if items.iter().any(|it| it.module.starts_with("c::m")) {
+            groups.push(Box::leak(Box::new(GroupEntry { meta: meta("m", "m", "c", 6), generic_benches: None })));
+        }
+        for attr in 0u8..3 {
+            let mut reference = verif::tree(&benches, &groups, None, Some((attr, false)));
+            strip_addrs(&mut reference);
+            for pb in permutations(&benches) {
+                for pg in permutations(&groups) {
+                    let mut t = verif::tree(&pb, &pg, None, Some((attr, false)));
+                    strip_addrs(&mut t);
+                    r.case(1);
+                    if t != reference {
+                        r.violation(Violation {
+                            sig: json!({"check":"order-independence","attr":attr}),
+                            text: format!("the tree built from entries registered in the order {:?} differs from the one built in declaration order (sort attribute {attr})", pb.iter().map(|b| format!("{}::{}", b.meta.module_path, b.meta.raw_name)).collect::<Vec<_>>()),
+                            case: json!({"kind":"perm","items": items.iter().map(|it| json!([it.kind, it.module, it.name])).collect::<Vec<_>>()}),
+                        });
+                    }
+                }
+            }
+        }
+    }
+    r.set_bounds(json!({"items": ITEMS.len(), "max_items_per_set": max_items, "permutations": "every permutation of the bench entry list x every permutation of the group list, 3 sort attributes"}));
+}
+
 fn main() {
     let cli = Cli::parse();
     mc_seq::quiet_panics();
     let r = Report::new("c13", &cli);
+    if cli.sub.first().map(|s| s.as_str()) == Some("perm") {
+        check_permutations(&cli, &r);
+        r.emit();
+    }
     let regexes: Vec<Option<Regex>> = FILTERS.iter().map(|(p, exact)| if *exact { None } else { Some(Regex::new(p).unwrap()) }).collect();
     let paths = paths();
 
